@@ -1027,15 +1027,18 @@ def insert_hints(body, hints, where):
         hits = [x for x in rx.finditer(body) if m[x.start() + (len(x.group(0)) - len(x.group(0).lstrip()))]]
         if (nth >= 0 and len(hits) <= nth) or (nth < 0 and len(hits) < -nth):
             raise AnchorLost("%s: hint anchor lost: %s" % (where, {k: v for k, v in h.items() if k != 'proof'}))
-        x = hits[nth]
-        pr = " proof { %s } " % h["proof"].strip() if not h.get("raw") else " %s " % h["proof"].strip()
-        if "before_stmt" in h:
-            st = x.start() + (len(x.group(0)) - len(x.group(0).lstrip()))
-            body = body[:st] + pr + body[st:]
-        else:
-            e = _stmt_end(body, m, x.start())
-            body = body[:e] + pr + body[e:]
-        log.append(("ghost-hint", str({k: v for k, v in h.items() if k != "proof"}), norm_ws(h["proof"])[:160]))
+        # `all = true`: the hint goes to EVERY match (the copies a rewrite leaves behind), last first so that positions stay valid
+        sel = list(reversed(hits)) if h.get("all") else [hits[nth]]
+        for x in sel:
+            m = code_mask(body)
+            pr = " proof { %s } " % h["proof"].strip() if not h.get("raw") else " %s " % h["proof"].strip()
+            if "before_stmt" in h:
+                st = x.start() + (len(x.group(0)) - len(x.group(0).lstrip()))
+                body = body[:st] + pr + body[st:]
+            else:
+                e = _stmt_end(body, m, x.start())
+                body = body[:e] + pr + body[e:]
+            log.append(("ghost-hint", str({k: v for k, v in h.items() if k != "proof"}), norm_ws(h["proof"])[:160]))
     return body, log
 
 
